@@ -649,10 +649,17 @@ def lift2(I, f, v1, v2):
     if S1 and S2:
         if "numpy.ndarray" not in (v1.kind, v2.kind):
             raise OutOfSubset("two non-numpy sequences reach the arithmetic lambda")
-        if not I.P.branch(v1.n == v2.n):
-            I.raise_("ValueError", "operands could not be broadcast together")
         i = z3.Int("i!lift%d" % id(v1))
-        return symseq.SymSeq("numpy.ndarray", v1.n, z3.Lambda([i], f(S(v1.elems, i), S(v2.elems, i))))
+        # numpy broadcasting of 1-d operands: equal lengths, or one operand of length 1
+        if I.P.branch(v1.n == v2.n):
+            a, b, n = S(v1.elems, i), S(v2.elems, i), v1.n
+        elif I.P.branch(v2.n == 1):
+            a, b, n = S(v1.elems, i), S(v2.elems, 0), v1.n
+        elif I.P.branch(v1.n == 1):
+            a, b, n = S(v1.elems, 0), S(v2.elems, i), v2.n
+        else:
+            I.raise_("ValueError", "operands could not be broadcast together")
+        return symseq.SymSeq("numpy.ndarray", n, z3.Lambda([i], f(a, b)))
     raise OutOfSubset("arithmetic on %r and %r" % (v1, v2))
 
 
